@@ -72,6 +72,13 @@ var configs = []*Config{
 	// three manifests and the close
 	{Name: "m3-close", Manifests: 3, Close: true,
 		Shards: []Shard{q(0, 0) /*2M*/, t(1, 0) /*92M*/, t(0, 1) /*95M*/}},
+	// two leases colliding on a hostname: lease B's manifest lists [free-b, www] (resp. [www, free-b])
+	// while lease A holds www - B's reservation is refused, B's manager ends, both leases close; at
+	// the end every hostname anybody ever asked for must be reservable by a third deployment
+	{Name: "m1-close-b-free-first", Manifests: 1, Close: true, SecondLease: "free-first",
+		Shards: []Shard{q(0, 0, 1, 0), q(0, 1), t(1, 1)}},
+	{Name: "m1-close-b-shared-first", Manifests: 1, Close: true, SecondLease: "shared-first",
+		Shards: []Shard{q(0, 0, 1, 0), q(0, 1), t(1, 1)}},
 	// thorough only
 	{Name: "m2-close", Manifests: 2, Close: true,
 		Shards: []Shard{t(1, 1) /*72M*/, t(2, 0) /*17M*/, t(0, 2) /*16M*/}},
@@ -609,6 +616,7 @@ func doParent(tier string, nworkers int, only string, d time.Duration, noEvid bo
 				"'teardown was requested' = the manager received from its teardownch (observed through the channel model, vs.RecvCountNow, in the first block of the operation goroutine the manager spawned)",
 				"intermediate clause ('released THEN', i.e. not before teardown has finished): at the start and at the return of every Deploy / TeardownLease call the lease's reservation (inventoryService.reservationCount) and hostname (hostnameService.inUse) must still be present; read in place through in-package accessors, no channel round trip",
 				"hostnames: manifest v1 carries {www, api}, v2 drops api, v3 adds new; 'held while an operation is in flight' is demanded of the set the hostname service itself held at the manager's first operation (the unchanged manager never reserves hostnames of later manifests); after close + completed teardown EVERY hostname of every version must be reservable by another deployment",
+				"two-lease configurations (m1-close-b-*): the second lease's manifest is published only while lease A is deployed and not yet closed, and A's close only after B's hostname request has been answered, so that B's reservation is refused; B's cluster calls (none on the unchanged tree) are only judged for overlap; at the end every hostname any manager asked for, including those of the refused request, must be reservable by a third deployment, and the inventory must hold no reservation of either lease",
 				"end-of-history clauses (teardown invoked after the last deploy, reservation and hostnames released, last deploy carries the latest manifest) are evaluated when shutdown is requested last with the system quiescent and no cluster call in flight, through Service.Status() and HostnameService().CanReserveHostnames(); histories cut by an earlier shutdown are checked for the safety clauses and termination only",
 				"scope: exempt from the teardown clause are ONLY histories in which a deploy failed before the manager accepted the teardown request (it has left its loop then and refuses the request; counted under coverage.observations as failed-deploy:no-teardown-request-accepted); a request accepted before or while a deploy is in flight must be followed by TeardownLease after that deploy finishes, ok or error",
 				"the hostname reservation answer is produced by the real hostnameService goroutine; 'lease closed before the answer' is reached as a scheduling/select choice, not as a menu event",
